@@ -6,6 +6,7 @@ import Tx3Proofs.C01Template
 import Tx3Proofs.C01Spec
 import Tx3Proofs.C01Change
 import Tx3Proofs.C01Index
+import Tx3Proofs.C01Datum
 #print axioms Tx3.Lang.eval_int
 #print axioms Tx3.Lang.lower_int
 #print axioms Tx3.Lang.C01_int_fragment
@@ -38,3 +39,9 @@ import Tx3Proofs.C01Index
 #print axioms Tx3.C01_list_index_exact
 #print axioms Tx3.C01_struct_index_exact
 #print axioms Tx3.C01_index_out_of_range
+#print axioms Tx3.Lang.good
+#print axioms Tx3.Lang.egood
+#print axioms Tx3.Lang.C01_datum_exact
+#print axioms Tx3.Lang.C01_redeemer_exact
+#print axioms Tx3.Lang.C01_field_order_immaterial
+#print axioms Tx3.Lang.C01_datum_fragment
